@@ -1,1 +1,2 @@
 import PyDBMLProofs.Props.C13
+import PyDBMLProofs.Props.C18
